@@ -1,1 +1,395 @@
-/-! Property theorems for C17 (see /verif/DESIGN.md). Only property theorems and non-vacuity examples live here. -/
+import Proofs.C17
+import GoawkModel.Generated.C17Kinds
+/-!
+# C17 — Go functions exposed to AWK convert arguments and results as documented
+
+Theorems over the model `GoawkModel.C17` (checkNativeFunc, validNativeType, toNative, fromNative, callNative, the resolver's
+argument-count rule). Quantifiers are unbounded: every signature (`Sig` over all 27 reflect kinds, named or not, nested slices),
+every argument list, every Go function body.
+-/
+namespace GoawkModel.C17.Props
+open GoawkModel GoawkModel.C17
+set_option linter.unusedSimpArgs false
+
+/-! ## regenerated facts: the source text of the modelled functions (case lists and the statements of every case) -/
+
+theorem gen_matches_toNative : Generated.C17Kinds.toNativeCases = [
+  ("Bool", "return reflect.ValueOf(v.boolean())"),
+  ("Int", "return reflect.ValueOf(int(v.num()))"),
+  ("Int8", "return reflect.ValueOf(int8(v.num()))"),
+  ("Int16", "return reflect.ValueOf(int16(v.num()))"),
+  ("Int32", "return reflect.ValueOf(int32(v.num()))"),
+  ("Int64", "return reflect.ValueOf(int64(v.num()))"),
+  ("Uint", "return reflect.ValueOf(uint(int64(v.num())))"),
+  ("Uint8", "return reflect.ValueOf(uint8(int64(v.num())))"),
+  ("Uint16", "return reflect.ValueOf(uint16(int64(v.num())))"),
+  ("Uint32", "return reflect.ValueOf(uint32(int64(v.num())))"),
+  ("Uint64", "return reflect.ValueOf(uint64(int64(v.num())))"),
+  ("Float32", "return reflect.ValueOf(float32(v.num()))"),
+  ("Float64", "return reflect.ValueOf(v.num())"),
+  ("String", "return reflect.ValueOf(p.toString(v))"),
+  ("Slice", "if typ.Elem().Kind() != reflect.Uint8 { panic(fmt.Sprintf(\"unexpected argument slice: %s\", typ.Elem().Kind())) } ; s := p.toString(v) ; b := reflect.MakeSlice(typ, len(s), len(s)) ; reflect.Copy(b, reflect.ValueOf(s)) ; return b"),
+  ("default", "panic(fmt.Sprintf(\"unexpected argument type: %s\", typ.Kind()))")
+] := by rfl
+
+theorem gen_matches_fromNative : Generated.C17Kinds.fromNativeCases = [
+  ("Bool", "return boolean(v.Bool())"),
+  ("Int,Int8,Int16,Int32,Int64", "return num(float64(v.Int()))"),
+  ("Uint,Uint8,Uint16,Uint32,Uint64", "return num(float64(v.Uint()))"),
+  ("Float32,Float64", "return num(v.Float())"),
+  ("String", "return str(v.String())"),
+  ("Slice", "if v.Type().Elem().Kind() == reflect.Uint8 { return str(string(v.Bytes())) } ; panic(fmt.Sprintf(\"unexpected return slice: %s\", v.Type().Elem().Kind()))"),
+  ("default", "panic(fmt.Sprintf(\"unexpected return type: %s\", v.Kind()))")
+] := by rfl
+
+theorem gen_matches_validNativeType : Generated.C17Kinds.validNativeTypeCases = [
+  ("Bool", "return true"),
+  ("Int,Int8,Int16,Int32,Int64", "return true"),
+  ("Uint,Uint8,Uint16,Uint32,Uint64", "return true"),
+  ("Float32,Float64", "return true"),
+  ("String", "return true"),
+  ("Slice", "return typ.Elem().Kind() == reflect.Uint8"),
+  ("default", "return false")
+] := by rfl
+
+theorem gen_matches_checkNumOut : Generated.C17Kinds.checkNumOutCases = [
+  ("0", ""),
+  ("1", "if !validNativeType(typ.Out(0)) { return newError(\"native function %q return value is not int or string\", name) }"),
+  ("2", "if !validNativeType(typ.Out(0)) { return newError(\"native function %q first return value is not int or string\", name) } ; if typ.Out(1) != errorType { return newError(\"native function %q second return value is not an error\", name) }"),
+  ("default", "return newError(\"native function %q returns more than two values\", name)")
+] := by rfl
+
+theorem gen_matches_callNumOut : Generated.C17Kinds.callNumOutCases = [
+  ("0", "return null(), nil"),
+  ("1", "return fromNative(outs[0]), nil"),
+  ("2", "if !outs[1].IsNil() { return null(), outs[1].Interface().(error) } ; return fromNative(outs[0]), nil"),
+  ("default", "panic(fmt.Sprintf(\"unexpected number of return values: %d\", len(outs)))")
+] := by rfl
+
+theorem gen_matches_callNativePrefix : Generated.C17Kinds.callNativePrefix = ["f := p.nativeFuncs[index]", "minIn := len(f.in)", "var variadicType reflect.Type", "if f.isVariadic { variadicType = f.in[len(f.in)-1].Elem() minIn-- }", "values := make([]reflect.Value, 0, 7)", "for i, a := range args { var argType reflect.Type if !f.isVariadic || i < len(f.in)-1 { argType = f.in[i] } else { argType = variadicType } arg := p.toNative(a, argType) if arg.Type() != argType { arg = arg.Convert(argType) } values = append(values, arg) }", "for i := len(args); i < minIn; i++ { values = append(values, reflect.Zero(f.in[i])) }", "outs := f.value.Call(values)"] := by rfl
+
+theorem gen_matches_resolver : Generated.C17Kinds.resolverNativeBranch = "{ typ := reflect.TypeOf(v.nativeFuncs[n.Name]) if typ == nil || typ.Kind() != reflect.Func { panic(ast.PosErrorf(n.Pos, \"native function %q is not a function\", n.Name)) } numParams = typ.NumIn() if typ.IsVariadic() { numParams = 1000000000 } }" ∧ Generated.C17Kinds.resolverVariadicCap = 1000000000 := ⟨rfl, rfl⟩
+
+theorem gen_matches_keywords : Generated.C17Kinds.keywords = ["BEGIN", "END", "atan2", "break", "close", "continue", "cos", "delete", "do", "else", "exit", "exp", "fflush", "for", "function", "getline", "gsub", "if", "in", "index", "int", "length", "log", "match", "next", "nextfile", "print", "printf", "rand", "return", "sin", "split", "sprintf", "sqrt", "srand", "sub", "substr", "system", "tolower", "toupper", "while"] := by rfl
+
+/-- the kinds `validNativeType` accepts, `toNative` converts and `fromNative` converts back are the same set, read off the
+regenerated case lists (so adding a kind to one switch only breaks this) -/
+theorem gen_kind_sets_agree :
+    Generated.C17Kinds.toNativeKinds = Generated.C17Kinds.validNativeTypeKinds ∧
+    Generated.C17Kinds.fromNativeKinds = Generated.C17Kinds.validNativeTypeKinds ∧
+    Generated.C17Kinds.validNativeTypeKinds =
+      [RKind.bool, .int, .int8, .int16, .int32, .int64, .uint, .uint8, .uint16, .uint32, .uint64, .float32, .float64, .string, .slice].map RKind.name ∧
+    Generated.C17Kinds.keywordBytes.length = Generated.C17Kinds.keywords.length := by
+  decide
+
+/-! ## which signatures are accepted -/
+
+/-- accepted at set-up ⇔ not named like a keyword ∧ every parameter (the element type for the variadic tail) is of a documented
+kind ∧ the results are none, one documented value, or a documented value and `error` -/
+theorem sig_accept_iff (name : Bytes) (s : Sig) (isNil : Bool) :
+    (checkNativeFunc (isKeyword name) (.func s isNil)).1 = .ok () ↔ isKeyword name = false ∧ DocumentedShape s :=
+  check_ok_iff _ s isNil
+
+/-- a non-function value is an error -/
+theorem nonfunc_rejected (name : Bytes) (k : RKind) : ∃ e, checkNativeFunc (isKeyword name) (.other k) = (.err [], some e) := by
+  unfold checkNativeFunc; cases isKeyword name <;> simp
+
+/-- every function of undocumented shape, or named like a keyword, gets an error value (never a panic, never accepted) -/
+theorem bad_shape_is_error (name : Bytes) (s : Sig) (isNil : Bool) (h : ¬ (isKeyword name = false ∧ DocumentedShape s)) :
+    ∃ e, checkNativeFunc (isKeyword name) (.func s isNil) = (.err [], some e) := by
+  have h' := mt (sig_accept_iff name s isNil).1 h
+  generalize isKeyword name = kw at h'
+  unfold checkNativeFunc at h' ⊢
+  cases kw with
+  | true => simp
+  | false =>
+    simp only [Bool.false_eq_true, if_false] at h' ⊢
+    cases h1 : checkParams s s.params 0 with
+    | some e => exact ⟨e, rfl⟩
+    | none =>
+      simp only [h1] at h'
+      cases h2 : checkResults s.results with
+      | some e => exact ⟨e, rfl⟩
+      | none => simp [h2] at h'
+
+/-- Full statement "everything that is not an acceptable function is rejected with an error". False of the current code for the
+untyped nil (finding G17-1): `checkNativeFunc` dereferences a nil `reflect.Type`. -/
+def OtherValuesRejected : Prop :=
+  ∀ (name : Bytes) (f : FVal), (∀ s n, f ≠ .func s n) → ∃ e, checkNativeFunc (isKeyword name) f = (.err [], some e)
+
+theorem other_values_rejected_partial (name : Bytes) (f : FVal) (h : ∀ s n, f ≠ .func s n) (hn : ∀ k, f = .other k ∨ isKeyword name = true) :
+    ∃ e, checkNativeFunc (isKeyword name) f = (.err [], some e) := by
+  cases f with
+  | func s n => exact absurd rfl (h s n)
+  | other k => exact nonfunc_rejected name k
+  | untypedNil =>
+    cases hn .invalid with
+    | inl h => cases h
+    | inr h => simp [checkNativeFunc, h]
+
+theorem other_values_rejected_fails : ¬ OtherValuesRejected := by
+  intro h
+  obtain ⟨e, he⟩ := h [102] .untypedNil (by intro s n h; cases h)
+  have hk : isKeyword [102] = false := by decide
+  simp [checkNativeFunc, hk] at he
+
+/-! ## the conversion table -/
+
+/-- truncation toward zero, characterised: for a finite double `±m·2^e` (m, e as decoded from the bits) the result `t` has the
+double's sign and `|t| ≤ |x| < |t| + 1` -/
+theorem trunc_spec (b : Nat) (t : Int) (h : f64Trunc b = some t) :
+    let p := f64Parts b
+    let m := if p.exp == 0 then p.mant else p.mant + 2 ^ 52
+    let e : Int := (if p.exp == 0 then 1 else (p.exp : Int)) - 1075
+    p.exp ≠ 2047 ∧ (t < 0 → p.neg = true) ∧ (0 < t → p.neg = false) ∧
+    (e ≥ 0 → t.natAbs = m * 2 ^ e.toNat) ∧
+    (e < 0 → t.natAbs * 2 ^ (-e).toNat ≤ m ∧ m < (t.natAbs + 1) * 2 ^ (-e).toNat) := by
+  intro p m e
+  simp only [f64Trunc] at h
+  split at h
+  · cases h
+  · rename_i hne
+    have hne' : p.exp ≠ 2047 := by simpa using hne
+    injection h with h
+    generalize ha : (if e ≥ 0 then m <<< e.toNat else m >>> (-e).toNat) = a at h
+    have hab : t.natAbs = a := by
+      rw [← h]; split <;> simp
+    refine ⟨hne', ?_, ?_, ?_, ?_⟩
+    · intro ht; cases hp : p.neg with
+      | true => rfl
+      | false => rw [show (f64Parts b).neg = false from hp] at h; simp at h; omega
+    · intro ht; cases hp : p.neg with
+      | false => rfl
+      | true => rw [show (f64Parts b).neg = true from hp] at h; simp at h; omega
+    · intro he
+      rw [if_pos he] at ha
+      rw [hab, ← ha, Nat.shiftLeft_eq]
+    · intro he
+      rw [if_neg (by omega)] at ha
+      rw [hab, ← ha, Nat.shiftRight_eq_div_pow]
+      have hpos : 0 < 2 ^ (-e).toNat := Nat.pow_pos (by decide)
+      refine ⟨Nat.div_mul_le_self _ _, ?_⟩
+      have := Nat.lt_mul_div_succ m hpos
+      rw [Nat.mul_comm] at this; exact this
+
+/-- `toNative`: the payload each documented kind receives. Integer kinds receive the truncated number whenever it is in the
+kind's range (outside: the amd64 conversion, which the model carries and the harness checks, but which no theorem promises);
+unsigned 64-bit kinds go through `int64`, so their range here is `[0, 2^63)`. Named types behave as their kind. -/
+theorem conv_table (v : AVal) (n : Bool) :
+    toNative v (.prim .bool n) = .ok (.prim .bool false, .b v.truth) ∧
+    toNative v (.prim .float64 n) = .ok (.prim .float64 false, .f64 v.num) ∧
+    toNative v (.prim .float32 n) = .ok (.prim .float32 false, .f32 (f64to32 v.num)) ∧
+    toNative v (.prim .string n) = .ok (.prim .string false, .s v.str) ∧
+    (∀ e m, e.kind = .uint8 → toNative v (.slice e m) = .ok (.slice e m, .s v.str)) ∧
+    (∀ t, f64Trunc v.num = some t →
+      (-128 ≤ t ∧ t < 128 → toNative v (.prim .int8 n) = .ok (.prim .int8 false, .i t)) ∧
+      (-32768 ≤ t ∧ t < 32768 → toNative v (.prim .int16 n) = .ok (.prim .int16 false, .i t)) ∧
+      (-2147483648 ≤ t ∧ t < 2147483648 → toNative v (.prim .int32 n) = .ok (.prim .int32 false, .i t)) ∧
+      (-9223372036854775808 ≤ t ∧ t < 9223372036854775808 →
+        toNative v (.prim .int64 n) = .ok (.prim .int64 false, .i t) ∧ toNative v (.prim .int n) = .ok (.prim .int false, .i t)) ∧
+      (0 ≤ t ∧ t < 256 → toNative v (.prim .uint8 n) = .ok (.prim .uint8 false, .i t)) ∧
+      (0 ≤ t ∧ t < 65536 → toNative v (.prim .uint16 n) = .ok (.prim .uint16 false, .i t)) ∧
+      (0 ≤ t ∧ t < 4294967296 → toNative v (.prim .uint32 n) = .ok (.prim .uint32 false, .i t)) ∧
+      (0 ≤ t ∧ t < 9223372036854775808 →
+        toNative v (.prim .uint64 n) = .ok (.prim .uint64 false, .i t) ∧ toNative v (.prim .uint n) = .ok (.prim .uint false, .i t))) := by
+  refine ⟨rfl, rfl, rfl, rfl, ?_, ?_⟩
+  · intro e m he
+    have h1 : (Ty.slice e m).elemKind? = some .uint8 := by simp [Ty.elemKind?, he]
+    have h2 : (Ty.slice e m).kind = .slice := rfl
+    simp [toNative, h1, h2]
+  · intro t ht
+    refine ⟨?_, ?_, ?_, ?_, ?_, ?_, ?_, ?_⟩
+    · intro ⟨h1, h2⟩; simp [toNative, Ty.kind, cvt32_of_trunc _ t ht (by omega) (by omega), wrapSigned8_id t h1 h2]
+    · intro ⟨h1, h2⟩; simp [toNative, Ty.kind, cvt32_of_trunc _ t ht (by omega) (by omega), wrapSigned16_id t h1 h2]
+    · intro ⟨h1, h2⟩; simp [toNative, Ty.kind, cvt32_of_trunc _ t ht h1 h2]
+    · intro ⟨h1, h2⟩; simp [toNative, Ty.kind, cvt64_of_trunc _ t ht h1 h2]
+    · intro ⟨h1, h2⟩; simp [toNative, Ty.kind, cvt64_of_trunc _ t ht (by omega) (by omega), wrapUnsigned8_id t h1 h2]
+    · intro ⟨h1, h2⟩; simp [toNative, Ty.kind, cvt64_of_trunc _ t ht (by omega) (by omega), wrapUnsigned16_id t h1 h2]
+    · intro ⟨h1, h2⟩; simp [toNative, Ty.kind, cvt64_of_trunc _ t ht (by omega) (by omega), wrapUnsigned32_id t h1 h2]
+    · intro ⟨h1, h2⟩; simp [toNative, Ty.kind, cvt64_of_trunc _ t ht (by omega) (by omega), wrapUnsigned64_id t h1 (by omega)]
+
+/-- results: bool → 1/0, integers → the number (rounded to a double), floats → the number, string kinds → a string value -/
+theorem result_table (n : Bool) :
+    (∀ x, fromNative (.prim .bool n) (.b x) = .ok (.num (if x then 0x3ff0000000000000 else 0))) ∧
+    (∀ k x, k ∈ [RKind.int, .int8, .int16, .int32, .int64, .uint, .uint8, .uint16, .uint32, .uint64] →
+      fromNative (.prim k n) (.i x) = .ok (.num (intToF64 x))) ∧
+    (∀ x, fromNative (.prim .float64 n) (.f64 x) = .ok (.num x)) ∧
+    (∀ x, fromNative (.prim .float32 n) (.f32 x) = .ok (.num (f32to64 x))) ∧
+    (∀ x, fromNative (.prim .string n) (.s x) = .ok (.str x)) ∧
+    (∀ e m x, e.kind = .uint8 → fromNative (.slice e m) (.s x) = .ok (.str x) ∧ fromNative (.slice e m) .nilSlice = .ok (.str [])) := by
+  refine ⟨fun x => rfl, ?_, fun x => rfl, fun x => rfl, fun x => rfl, ?_⟩
+  · intro k x hk
+    simp only [List.mem_cons, List.mem_nil_iff, or_false] at hk
+    rcases hk with h | h | h | h | h | h | h | h | h | h <;> subst h <;> rfl
+  · intro e m x he
+    have h1 : (Ty.slice e m).elemKind? = some .uint8 := by simp [Ty.elemKind?, he]
+    have h2 : (Ty.slice e m).kind = .slice := rfl
+    simp [fromNative, h1, h2]
+
+/-! ## the call -/
+
+/-- what the Go function receives: the converted arguments followed by the zero value of every missing non-variadic parameter -/
+theorem zero_fill (s : Sig) (args : List AVal) (vs : List (Ty × NVal)) (h : buildValues s args = .ok vs) :
+    ∃ cs, convArgs s args 0 = .ok cs ∧
+      vs = cs ++ ((s.params.take (minIn s)).drop args.length).map (fun t => (t, zeroOf t)) ∧
+      (∀ t, zeroOf t = match t.kind with
+        | .bool => .b false | .float32 => .f32 0 | .float64 => .f64 0 | .string => .s [] | .slice => .nilSlice | _ => .i 0) := by
+  simp only [buildValues] at h
+  cases hc : convArgs s args 0 with
+  | ok cs => simp only [hc] at h; injection h with h; exact ⟨cs, rfl, by rw [← h]; rfl, fun t => by unfold zeroOf; rfl⟩
+  | err m => simp [hc] at h
+  | panic w => simp [hc] at h
+
+/-- every argument at or beyond the variadic parameter's position is converted to the variadic element type -/
+theorem variadic_spread (s : Sig) (e : Ty) (n : Bool) (hv : s.variadic = true) (hl : s.params.getLast? = some (.slice e n))
+    (i : Nat) (hi : s.params.length - 1 ≤ i) : argType? s i = some e := by
+  have : ¬ i < s.params.length - 1 := by omega
+  simp [argType?, hv, this, hl]
+
+/-- …and arguments before it (all arguments of a non-variadic function) to the parameter's own type -/
+theorem fixed_arg_type (s : Sig) (i : Nat) (hi : i < minIn s) : argType? s i = s.params[i]? := argType_fixed s i hi
+
+/-- each argument is converted with `toNative` at the type `argType?` gives for its position, in order -/
+theorem conv_args_pointwise (s : Sig) : ∀ (args : List AVal) (k : Nat) (vs : List (Ty × NVal)), convArgs s args k = .ok vs →
+    vs.length = args.length ∧ ∀ i (h : i < args.length), ∃ t x y, argType? s (k + i) = some t ∧ toNative args[i] t = .ok x ∧
+      convertTo x t = .ok y ∧ vs[i]? = some y
+  | [], k, vs, h => by simp [convArgs] at h; subst h; simp
+  | a :: rest, k, vs, h => by
+    simp only [convArgs] at h
+    cases ht : argType? s k with
+    | none => simp [ht] at h
+    | some t =>
+      simp only [ht] at h
+      cases hx : toNative a t with
+      | err m => simp [hx] at h
+      | panic w => simp [hx] at h
+      | ok x =>
+        simp only [hx] at h
+        cases hc : convertTo x t with
+        | err m => simp [hc] at h
+        | panic w => simp [hc] at h
+        | ok y =>
+          simp only [hc] at h
+          cases hr : convArgs s rest (k + 1) with
+          | err m => simp [hr] at h
+          | panic w => simp [hr] at h
+          | ok ys =>
+            simp only [hr] at h
+            injection h with h; subst h
+            obtain ⟨hlen, hpt⟩ := conv_args_pointwise s rest (k + 1) ys hr
+            refine ⟨by simp [hlen], ?_⟩
+            intro i hi
+            cases i with
+            | zero => exact ⟨t, x, y, by simpa using ht, by simpa using hx, hc, by simp⟩
+            | succ i =>
+              obtain ⟨t', x', y', h1, h2, h3, h4⟩ := hpt i (by simpa using hi)
+              exact ⟨t', x', y', by simpa [Nat.add_assoc, Nat.add_comm 1 i] using h1, by simpa using h2, h3, by simpa using h4⟩
+
+/-- one result: the call returns the converted first result of the Go function -/
+theorem result_conv (s : Sig) (args : List AVal) (body : Body) (vs : List (Ty × NVal)) (r : Ty)
+    (hb : buildValues s args = .ok vs) (ha : callAccepts s false vs = true) :
+    (s.results = [] → callNative s false args body = (.ok .null, some vs)) ∧
+    (s.results = [r] → callNative s false args body = (fromNative r (body vs).1, some vs)) ∧
+    (s.results = [r, .error] → (body vs).2 = none → callNative s false args body = (fromNative r (body vs).1, some vs)) := by
+  refine ⟨?_, ?_, ?_⟩ <;> intro hr <;> simp [callNative, hb, ha, hr]
+  intro h2; simp [h2]
+
+/-- a non-nil error aborts the call with exactly that error, whatever the first result is -/
+theorem error_aborts (s : Sig) (args : List AVal) (body : Body) (vs : List (Ty × NVal)) (r : Ty) (m : Bytes)
+    (hb : buildValues s args = .ok vs) (ha : callAccepts s false vs = true)
+    (hr : s.results = [r, .error]) (he : (body vs).2 = some m) :
+    callNative s false args body = (.err m, some vs) := by
+  simp [callNative, hb, ha, hr, he]
+
+/-- the parse-time rule: more arguments than parameters to a non-variadic function is an error -/
+theorem too_many_is_parse_error (s : Sig) (isNil : Bool) (nargs : Nat) (hv : s.variadic = false) (hn : nargs > s.params.length) :
+    resolveCall (.func s isNil) nargs = .tooManyArgs := by
+  simp [resolveCall, hv, hn]
+
+/-- …and it is needed: without it the call itself would index past the parameter list -/
+theorem too_many_would_panic (s : Sig) (args : List AVal) (body : Body) (hv : s.variadic = false)
+    (hok : ∀ j p, s.params[j]? = some p → validNativeType (effParam s j p) = true)
+    (hn : args.length > s.params.length) : ∃ w, (callNative s false args body).1 = .panic w := by
+  have hwf : s.WF = true := by simp [Sig.WF, hv]
+  -- the first params.length arguments convert; the next one has no type
+  have key : ∀ (args : List AVal) (k : Nat), k + args.length > s.params.length → k ≤ s.params.length →
+      ∃ w, convArgs s args k = .panic w := by
+    intro args
+    induction args with
+    | nil => intro k h1 h2; simp at h1; omega
+    | cons a rest ih =>
+      intro k h1 h2
+      simp only [convArgs]
+      by_cases hk : k < s.params.length
+      · obtain ⟨t, ht, hvt⟩ := argType_valid s hwf hok k (fun _ => hk)
+        obtain ⟨x, hx, hc⟩ := toNative_convert_ok a t hvt
+        obtain ⟨w, hw⟩ := ih (k + 1) (by simp at h1; omega) (by omega)
+        exact ⟨w, by simp [ht, hx, hc, hw]⟩
+      · have : argType? s k = none := by simp [argType?, hv]; omega
+        exact ⟨"index out of range: f.in[i]", by simp [this]⟩
+  obtain ⟨w, hw⟩ := key args 0 (by omega) (by omega)
+  exact ⟨w, by simp [callNative, buildValues, hw]⟩
+
+/-- what the Go type system guarantees of the function's first result -/
+def BodyTyped (s : Sig) (body : Body) : Prop := ∀ vs r, s.results.head? = some r → (body vs).1.fits r = true
+
+/-- Full statement: an accepted function called with an accepted argument count never panics. False of the current code for a
+nil function value (finding G17-2): it is accepted at set-up and `reflect.Value.Call` panics. -/
+def NeverPanics : Prop :=
+  ∀ (name : Bytes) (s : Sig) (isNil : Bool), s.WF = true → (checkNativeFunc (isKeyword name) (.func s isNil)).1 = .ok () →
+    ∀ (args : List AVal), resolveCall (.func s isNil) args.length = .ok → ∀ body, BodyTyped s body →
+      ∀ w, (callNative s isNil args body).1 ≠ .panic w
+
+/-- accepted signature ∧ accepted argument count ∧ non-nil function ⇒ no panic: not in `toNative` (every parameter kind is
+convertible), not in `Convert` (named types), not in `f.in[i]`, not in `reflect.Value.Call` (count and types are right), not in
+`fromNative`, not in the result-count switch — for every argument list and every function body -/
+theorem never_panics_partial (name : Bytes) (s : Sig) (hwf : s.WF = true)
+    (hc : (checkNativeFunc (isKeyword name) (.func s false)).1 = .ok ())
+    (args : List AVal) (hr : resolveCall (.func s false) args.length = .ok) (body : Body) (hb : BodyTyped s body) :
+    ∀ w, (callNative s false args body).1 ≠ .panic w := by
+  obtain ⟨_, hparams, hres⟩ := (sig_accept_iff name s false).1 hc
+  have hp : ∀ j p, s.params[j]? = some p → validNativeType (effParam s j p) = true :=
+    fun j p h => (validNativeType_iff _).2 (hparams j p h)
+  have hn : s.variadic = false → args.length ≤ s.params.length := by
+    intro hv
+    simp only [resolveCall, hv] at hr
+    by_cases h : args.length > s.params.length
+    · simp [h] at hr
+    · omega
+  obtain ⟨cs, _, _, hbv, hacc⟩ := buildValues_ok s hwf hp args hn
+  intro w
+  simp only [callNative, hbv, hacc]
+  rcases hres with h0 | ⟨r, h1, hd⟩ | ⟨r, h2, hd⟩
+  · simp [h0]
+  · obtain ⟨x, hx⟩ := fromNative_ok r (body (cs ++ zeroFill s args.length)).1 ((validNativeType_iff r).2 hd) (hb _ r (by simp [h1]))
+    simp [h1, hx]
+  · obtain ⟨x, hx⟩ := fromNative_ok r (body (cs ++ zeroFill s args.length)).1 ((validNativeType_iff r).2 hd) (hb _ r (by simp [h2]))
+    cases he : (body (cs ++ zeroFill s args.length)).2 <;> simp [h2, hx, he]
+
+theorem never_panics_fails : ¬ NeverPanics := by
+  intro h
+  have := h [102] ⟨[.prim .int false], false, [.prim .int false]⟩ true (by decide) (by decide) [] (by decide)
+    (fun _ => (.i 0, none)) (by intro vs r hr; simp at hr; subst hr; rfl) "reflect.Value.Call rejects the call"
+  exact this (by decide)
+
+/-! ## non-vacuity -/
+
+-- an accepted variadic signature with named types, called with a missing fixed argument and two spread ones
+example : (checkNativeFunc (isKeyword [110, 102]) (.func ⟨[.prim .int8 true, .prim .string false, .slice (.prim .int64 true) false], true,
+    [.slice (.prim .uint8 false) true, .error]⟩ false)).1 = .ok () := by decide
+example : (callNative ⟨[.prim .int8 false, .prim .uint8 true, .slice (.prim .uint8 false) false], false, [.prim .int64 false, .error]⟩ false
+    [⟨0x4069000000000000, true, [50, 48, 48]⟩, ⟨0xc008000000000000, true, [45, 51]⟩] (fun _ => (.i 9007199254740993, none))) =
+    (.ok (.num 0x4340000000000000), some [(.prim .int8 false, .i (-56)), (.prim .uint8 true, .i 253), (.slice (.prim .uint8 false) false, .nilSlice)]) := by
+  decide
+example : f64Trunc 0xc007333333333333 = some (-2) := by decide   -- -2.9
+example : isKeyword [112, 114, 105, 110, 116] = true ∧ isKeyword [110, 102] = false := by decide   -- "print", "nf"
+example : resolveCall (.func ⟨[.prim .int false], false, []⟩ false) 2 = .tooManyArgs := by decide
+example : DocumentedShape ⟨[.prim .int false, .slice (.slice (.prim .uint8 false) false) false], true, [.prim .bool false, .error]⟩ := by
+  refine ⟨?_, Or.inr (Or.inr ⟨_, rfl, by simp [Documented, Ty.kind]⟩)⟩
+  intro i p h
+  match i, h with
+  | 0, h => simp at h; subst h; simp [effParam, Documented, Ty.kind]
+  | 1, h => simp at h; subst h; simp [effParam, Documented, Ty.kind, Ty.elemKind?]
+  | i + 2, h => simp at h
+
+end GoawkModel.C17.Props
